@@ -15,10 +15,10 @@ git -C /repo worktree remove --force $WT 2>/dev/null; rm -rf $WT
 git -C /repo worktree add --detach $WT HEAD >/dev/null 2>&1
 demo=$(ls $src/_seed/*_test.go | head -1)
 cp $demo $WT/$pkg/
-(cd $WT && go test -vet=off -count=1 -run 'TestSeed' ./$pkg/ > $out/demo_without.log 2>&1); r1=$?
+(cd $WT && go test -vet=off -count=1 -run "${DEMO_RUN:-TestSeed}" ./$pkg/ > $out/demo_without.log 2>&1); r1=$?
 git -C $WT apply $out/patch.diff; ra=$?
 (cd $WT && go build ./... > $out/build_with.log 2>&1); rb=$?
-(cd $WT && go test -vet=off -count=1 -run 'TestSeed' ./$pkg/ > $out/demo_with.log 2>&1); r2=$?
+(cd $WT && go test -vet=off -count=1 -run "${DEMO_RUN:-TestSeed}" ./$pkg/ > $out/demo_with.log 2>&1); r2=$?
 rm -f $WT/$pkg/$(basename $demo)
 (cd $WT && go test -vet=off -count=1 ./... > $out/suite_with.log 2>&1); r3=$?
 echo "apply=$ra build=$rb demo_without=$r1 (want 0) demo_with=$r2 (want !=0) suite_with=$r3 (want 0)" | tee $out/confirm.txt
